@@ -36,6 +36,8 @@ class C18(Prop):
         ck = {"default_noreply": rng.random() < 0.5}
         if rng.random() < 0.3:
             ck["key_prefix"] = E(b"p:")
+        if nc > 1 and rng.random() < 0.08:
+            return self.gen_shared(rng, idx, nc, ck)
         w = {"stack": "fallback", "servers": servers, "nodes": nodes, "client_kwargs": ck,
              "per_cache_kwargs": per, "knobs": {"recv_size": rng.choice(gen.RECV_SIZES)}}
         pfx = codec.dec(ck.get("key_prefix", E(b"")))
@@ -82,7 +84,7 @@ class C18(Prop):
                 if rng.random() < 0.5:
                     k["noreply"] = rng.choice([True, False])
             elif m in ("incr", "decr"):
-                a = [E(b"n3" if b"n3" in keys else key), rng.choice([1, 7])]
+                a = [E(b"n3" if b"n3" in keys else key), rng.choice([1, 7, 0])]
                 if rng.random() < 0.5:
                     k["noreply"] = rng.choice([True, False])
             elif m == "touch":
@@ -113,10 +115,79 @@ class C18(Prop):
                 steps.append({"t": "recache", "order": order, "how": rng.choice(["assign", "inplace"])})
         return [{"property": self.id, "world": w, "steps": steps}]
 
+    def gen_shared(self, rng, idx, nc, ck):
+        """Several caches on ONE server, told apart by their key prefixes (a prefix / settings migration): the
+        caches are still distinct caches, consulted in order, and writes still go through the first one only."""
+        nodes, servers = gen.node_specs(1)
+        prefixes = [b"v%d:" % (nc - i) for i in range(nc)]
+        per = [{"key_prefix": E(prefixes[i]), **({"ignore_exc": True} if i else {})} for i in range(nc)]
+        ck = dict(ck)
+        ck.pop("key_prefix", None)
+        w = {"stack": "fallback", "servers": servers * nc, "nodes": nodes, "client_kwargs": ck,
+             "per_cache_kwargs": per, "knobs": {"recv_size": rng.choice(gen.RECV_SIZES)}}
+        keys = [b"k1", "s2", b"n3"][:rng.randint(1, 3)]
+        steps = []
+        bits = nc * len(keys)
+        matrix = rng.getrandbits(bits)
+        for ci in range(nc):
+            for ki, k in enumerate(keys):
+                if matrix >> (ci * len(keys) + ki) & 1:
+                    wk = prefixes[ci] + (k.encode() if isinstance(k, str) else k)
+                    val = b"%d" % (10 * ci + ki) if k == b"n3" else b"val-c%d-%d" % (ci, ki)
+                    steps.append({"t": "direct", "node": 0, "key": E(wk), "value": E(val)})
+        for _ in range(rng.randint(4, 10)):
+            m = rng.choice(("set", "add", "delete", "incr", "touch") + READS + READS)
+            key = rng.choice(keys)
+            a, k = [E(key)], {}
+            if m in ("set", "add"):
+                a.append(E(b"new"))
+                k["noreply"] = rng.choice([True, False])
+            elif m == "incr":
+                a = [E(b"n3" if b"n3" in keys else key), 1]
+            elif m in ("get_many", "gets_many"):
+                a = [E(rng.sample(keys, rng.randint(1, len(keys))))]
+            steps.append({"t": "call", "m": m, "a": a, "k": k})
+        return [{"property": self.id, "world": w, "steps": steps, "shared": prefixes and [E(p) for p in prefixes]}]
+
+    def judge_shared(self, scn, res):
+        """Caches sharing a server: judged on the sequence of commands (verb, wire key) the server received."""
+        out = []
+        prefixes = [codec.dec(p) for p in scn["shared"]]
+
+        def wk(ci, k):
+            return prefixes[ci] + (k.encode() if isinstance(k, str) else k)
+
+        for rec in res.calls:
+            if rec.step < 0:
+                continue
+            args, kwargs = res.extra["args"][rec.step]
+            m = rec.method
+            snap = rec.extra["snap"][0]
+            got = [(c[1], c[2]) for c in rec.commands]
+            if m in WRITES:
+                want = [(m.encode(), wk(0, args[0]))]
+                if got != want:
+                    out.append(viol("write-not-through-first-cache-only", rec, want=repr(want)[:160], got=repr(got)[:160]))
+                continue
+            keys = list(args[0]) if m in ("get_many", "gets_many") else [args[0]]
+            verb = b"gets" if m in ("gets", "gets_many") else b"get"
+            want = []
+            for ci in range(len(prefixes)):
+                want.extend((verb, wk(ci, k)) for k in keys)
+                if any(wk(ci, k) in snap for k in keys):
+                    break
+            if got != want:
+                out.append(viol("read-visited-wrong-caches", rec, disc="%s.shared-server" % m, want=repr(want)[:200],
+                                got=repr(got)[:200]))
+        out.sort(key=lambda v: v["step"])
+        return out
+
     def hooks(self, scn):
         return (SnapHook(),)
 
     def judge(self, scn, res):
+        if scn.get("shared"):
+            return self.judge_shared(scn, res)
         out = []
         w = res.world
         ck = scn["world"]["client_kwargs"]
